@@ -13,11 +13,6 @@ func init() {
 		if tier == "thorough" {
 			n = 80000
 		}
-		bucketSets := [][]float64{{0.1, 1, 10}, {1, 0.5}, {1, 1}, {}, {1, 2, inf()}, {nan(), 1}, {-1, 0, 1}, {5}, {inf()}, {1, nan()}}
-		quantSets := [][]quant{{{0.5, 0.05}, {0.9, 0.01}}, {{1.5, 0.1}}, {{-0.1, 0.1}}, {{0.5, 2}}, {{nan(), 0.1}}, {}, {{0, 0}, {1, 0}}, {{0.5, -0.1}}}
-		ages := []int64{0, int64(5 * time.Minute), -int64(time.Second), int64(10 * time.Minute), int64(time.Hour), -1, 1 << 62}
-		small := []int{0, 1, 5, 1000}
-		labelNames := []string{"ok_label", "ab", "a", "__x", "le", "quantile", "_", "__", "9a", "a-b", "job"}
 		battery := []string{"t.a:1|ms", "t.a:2|ms|#tag:v", "t.a:1|c", "t.a:5|g", "t.b:1|h", "t.b:3|d|@0.5", "u.x:1|ms", "u.x:1|c", "t.a:0.5:1.5|ms", "t.a:-1|ms", "t.a:nan|ms"}
 		{ // corpus: max_age so small that MaxAge/AgeBuckets is 0 -> client_golang's summary spins forever on the first Observe
 			h := &pipeHist{flags: "1111"}
@@ -30,116 +25,10 @@ func init() {
 			emit(h.op(), true, "corpus_hang")
 		}
 		for i := 0; i < n; i++ {
-			c := &rawCfg{}
+			c, deviates := genC19Cfg(r)
 			cls := []string{}
-			mark := func(s string) { cls = append(cls, s) }
-			if r.Intn(3) == 0 {
-				c.obs = sp(pick(r, []string{"histogram", "summary", "", "bogus"}))
-				mark("d_obs")
-			}
-			if r.Intn(6) == 0 {
-				c.timer = sp(pick(r, []string{"histogram", "summary", "nope"}))
-				mark("d_timer")
-			}
-			if r.Intn(4) == 0 {
-				c.buckets = bucketSets[r.Intn(len(bucketSets))]
-				mark("d_buckets")
-			}
-			if r.Intn(8) == 0 {
-				c.legacyB = bucketSets[r.Intn(len(bucketSets))]
-				mark("d_legacy_buckets")
-			}
-			if r.Intn(4) == 0 {
-				c.quantiles = quantSets[r.Intn(len(quantSets))]
-				mark("d_quantiles")
-			}
-			if r.Intn(8) == 0 {
-				c.legacyQ = quantSets[r.Intn(len(quantSets))]
-				mark("d_legacy_quantiles")
-			}
-			if r.Intn(4) == 0 {
-				c.maxAge = ages[r.Intn(len(ages))]
-				c.ageBuckets = small[r.Intn(len(small))]
-				c.bufCap = small[r.Intn(len(small))]
-				mark("d_summary_opts")
-			}
-			if r.Intn(5) == 0 {
-				c.ttl = []int64{int64(time.Second), 1 << 62, -int64(time.Second), 1}[r.Intn(4)]
-				mark("d_ttl")
-			}
-			nr := 1 + r.Intn(3)
-			for j := 0; j < nr; j++ {
-				ru := rawRule{match: pick(r, []string{"t.*", "t.a", "*.a", "t.b", "*.*"}), name: pick(r, []string{"m", "m_$1", "n"})}
-				if r.Intn(3) == 0 {
-					ru.obs = sp(pick(r, []string{"histogram", "summary", "", "hist"}))
-					mark("obs")
-				}
-				if r.Intn(3) == 0 {
-					b := bucketSets[r.Intn(len(bucketSets))]
-					pb := &b
-					if r.Intn(4) == 0 {
-						pb = nil
-					}
-					ru.ho = &pb
-					mark("hist_opts")
-				}
-				if r.Intn(6) == 0 {
-					b := bucketSets[r.Intn(len(bucketSets))]
-					ru.legacyB = &b
-					mark("legacy_buckets")
-				}
-				if r.Intn(3) == 0 {
-					so := &rawSO{maxAge: ages[r.Intn(len(ages))], ageBuckets: small[r.Intn(len(small))], bufCap: small[r.Intn(len(small))]}
-					if r.Intn(2) == 0 {
-						q := quantSets[r.Intn(len(quantSets))]
-						so.quantiles = &q
-					}
-					ru.so = so
-					mark("summary_opts")
-				}
-				if r.Intn(6) == 0 {
-					q := quantSets[r.Intn(len(quantSets))]
-					ru.legacyQ = &q
-					mark("legacy_quantiles")
-				}
-				if r.Intn(2) == 0 {
-					ru.labels = append(ru.labels, [2]string{pick(r, labelNames), pick(r, []string{"v", "$1", ""})})
-					mark("labels")
-				}
-				if r.Intn(5) == 0 {
-					s := []float64{0, -1, nan(), inf(), 1e300, 1e-300}[r.Intn(6)]
-					ru.scale = &s
-					mark("scale")
-				}
-				if r.Intn(6) == 0 {
-					ru.ttl = []int64{1, 1 << 62, -5, int64(time.Hour)}[r.Intn(4)]
-					mark("ttl")
-				}
-				if r.Intn(10) == 0 {
-					ru.help = pick(r, []string{"h one", "h two"})
-					mark("help")
-				}
-				if r.Intn(12) == 0 {
-					ru.match = pick(r, []string{"t..a", "9t.a", "t.a*", ""})
-					mark("bad_match")
-				}
-				if r.Intn(12) == 0 {
-					ru.name = pick(r, []string{"", "9m", "m-x", "m.$1"})
-					mark("bad_name")
-				}
-				if r.Intn(12) == 0 {
-					ru.matchType = sp(pick(r, []string{"regex", "glob", "other"}))
-					mark("match_type")
-				}
-				if r.Intn(12) == 0 {
-					ru.action = sp(pick(r, []string{"drop", "map", "zap"}))
-					mark("action")
-				}
-				if r.Intn(8) == 0 {
-					ru.mmt = sp(pick(r, []string{"counter", "observer", "timer", "histogram"}))
-					mark("mmt")
-				}
-				c.rules = append(c.rules, ru)
+			if deviates {
+				cls = append(cls, "x")
 			}
 			h := &pipeHist{flags: "1111"}
 			h.load(c)
@@ -155,4 +44,125 @@ func init() {
 		}
 	}
 	register(c19)
+}
+
+// genC19Cfg draws one configuration of the C19 option grammar; the bool says whether it deviates from the baseline
+func genC19Cfg(r *rand.Rand) (*rawCfg, bool) {
+	bucketSets := [][]float64{{0.1, 1, 10}, {1, 0.5}, {1, 1}, {}, {1, 2, inf()}, {nan(), 1}, {-1, 0, 1}, {5}, {inf()}, {1, nan()}}
+	quantSets := [][]quant{{{0.5, 0.05}, {0.9, 0.01}}, {{1.5, 0.1}}, {{-0.1, 0.1}}, {{0.5, 2}}, {{nan(), 0.1}}, {}, {{0, 0}, {1, 0}}, {{0.5, -0.1}}}
+	ages := []int64{0, int64(5 * time.Minute), -int64(time.Second), int64(10 * time.Minute), int64(time.Hour), -1, 1 << 62}
+	small := []int{0, 1, 5, 1000}
+	labelNames := []string{"ok_label", "ab", "a", "__x", "le", "quantile", "_", "__", "9a", "a-b", "job"}
+	c := &rawCfg{}
+	cls := []string{}
+	mark := func(s string) { cls = append(cls, s) }
+	if r.Intn(3) == 0 {
+		c.obs = sp(pick(r, []string{"histogram", "summary", "", "bogus"}))
+		mark("d_obs")
+	}
+	if r.Intn(6) == 0 {
+		c.timer = sp(pick(r, []string{"histogram", "summary", "nope"}))
+		mark("d_timer")
+	}
+	if r.Intn(4) == 0 {
+		c.buckets = bucketSets[r.Intn(len(bucketSets))]
+		mark("d_buckets")
+	}
+	if r.Intn(8) == 0 {
+		c.legacyB = bucketSets[r.Intn(len(bucketSets))]
+		mark("d_legacy_buckets")
+	}
+	if r.Intn(4) == 0 {
+		c.quantiles = quantSets[r.Intn(len(quantSets))]
+		mark("d_quantiles")
+	}
+	if r.Intn(8) == 0 {
+		c.legacyQ = quantSets[r.Intn(len(quantSets))]
+		mark("d_legacy_quantiles")
+	}
+	if r.Intn(4) == 0 {
+		c.maxAge = ages[r.Intn(len(ages))]
+		c.ageBuckets = small[r.Intn(len(small))]
+		c.bufCap = small[r.Intn(len(small))]
+		mark("d_summary_opts")
+	}
+	if r.Intn(5) == 0 {
+		c.ttl = []int64{int64(time.Second), 1 << 62, -int64(time.Second), 1}[r.Intn(4)]
+		mark("d_ttl")
+	}
+	nr := 1 + r.Intn(3)
+	for j := 0; j < nr; j++ {
+		ru := rawRule{match: pick(r, []string{"t.*", "t.a", "*.a", "t.b", "*.*"}), name: pick(r, []string{"m", "m_$1", "n"})}
+		if r.Intn(3) == 0 {
+			ru.obs = sp(pick(r, []string{"histogram", "summary", "", "hist"}))
+			mark("obs")
+		}
+		if r.Intn(3) == 0 {
+			b := bucketSets[r.Intn(len(bucketSets))]
+			pb := &b
+			if r.Intn(4) == 0 {
+				pb = nil
+			}
+			ru.ho = &pb
+			mark("hist_opts")
+		}
+		if r.Intn(6) == 0 {
+			b := bucketSets[r.Intn(len(bucketSets))]
+			ru.legacyB = &b
+			mark("legacy_buckets")
+		}
+		if r.Intn(3) == 0 {
+			so := &rawSO{maxAge: ages[r.Intn(len(ages))], ageBuckets: small[r.Intn(len(small))], bufCap: small[r.Intn(len(small))]}
+			if r.Intn(2) == 0 {
+				q := quantSets[r.Intn(len(quantSets))]
+				so.quantiles = &q
+			}
+			ru.so = so
+			mark("summary_opts")
+		}
+		if r.Intn(6) == 0 {
+			q := quantSets[r.Intn(len(quantSets))]
+			ru.legacyQ = &q
+			mark("legacy_quantiles")
+		}
+		if r.Intn(2) == 0 {
+			ru.labels = append(ru.labels, [2]string{pick(r, labelNames), pick(r, []string{"v", "$1", ""})})
+			mark("labels")
+		}
+		if r.Intn(5) == 0 {
+			s := []float64{0, -1, nan(), inf(), 1e300, 1e-300}[r.Intn(6)]
+			ru.scale = &s
+			mark("scale")
+		}
+		if r.Intn(6) == 0 {
+			ru.ttl = []int64{1, 1 << 62, -5, int64(time.Hour)}[r.Intn(4)]
+			mark("ttl")
+		}
+		if r.Intn(10) == 0 {
+			ru.help = pick(r, []string{"h one", "h two"})
+			mark("help")
+		}
+		if r.Intn(12) == 0 {
+			ru.match = pick(r, []string{"t..a", "9t.a", "t.a*", ""})
+			mark("bad_match")
+		}
+		if r.Intn(12) == 0 {
+			ru.name = pick(r, []string{"", "9m", "m-x", "m.$1"})
+			mark("bad_name")
+		}
+		if r.Intn(12) == 0 {
+			ru.matchType = sp(pick(r, []string{"regex", "glob", "other"}))
+			mark("match_type")
+		}
+		if r.Intn(12) == 0 {
+			ru.action = sp(pick(r, []string{"drop", "map", "zap"}))
+			mark("action")
+		}
+		if r.Intn(8) == 0 {
+			ru.mmt = sp(pick(r, []string{"counter", "observer", "timer", "histogram"}))
+			mark("mmt")
+		}
+		c.rules = append(c.rules, ru)
+	}
+	return c, len(cls) > 0
 }
